@@ -5,7 +5,7 @@ the Coq model's prediction."""
 import json, os, re
 import vlib
 
-IMPORTS = "From Aelys Require Import Model.CallCache."
+IMPORTS = "From Aelys Require Import Model.CallCache.\nOpen Scope N_scope."
 
 TRUSTED = [
     "Coq 8.16.1 kernel + vm_compute (refutation witnesses, Examples, evaluation of the model on the tie's histories)",
@@ -20,39 +20,45 @@ TRUSTED = [
     "Collect events are covered by the theorem under the assumption that a collection frees no object bound to a global (C03)",
 ]
 
-CLASSES = {
-    # signature -> (regex in known_findings.jsonl matches these)
-    "repl": "c05:repl-slot-collision",
-    "unit": "c05:unit-slot-collision",
-    "reload": "c05:reload-zeroed-slots",
-}
+SIG_BY_MODE = {"repl": "c05:repl-slot-collision", "reload": "c05:reload-zeroed-slots", "unit": "c05:unit-slot-collision"}
 
 
 def parse_obs(t):
     return [[int(x) for x in re.findall(r"\d+", part)] for part in re.findall(r"\[([^\[\]]*)\]", t)]
 
 
-def guard_query(q):
-    return f"guard_flags ({q})"
-
-
-GUARD_DEFS = """
-Definition flat (inputs : list (list event)) : list event := List.concat inputs.
-(* which guards of the theorem fail somewhere along the (specification's view of the) history:
-   [slot ids not injective over live sites; a native-bound name is rebound / a CallGlobalNative site's name no longer denotes a native] *)
-Fixpoint guard_scan (st : state) (h : list event) (u n : bool) : bool * bool :=
-  match h with
-  | [] => (u || negb (unique_slots st), n)
-  | e :: r =>
-      let n' := n || negb (event_ok st e)
-                  || existsb (fun s => s_live s && negb (s_slotted s) &&
-                                match resolve st (s_idx s) with ROk _ o => match o_kind o with KNat => false | _ => true end | _ => false end)
-                             (sites st) in
-      guard_scan (fst (spec_step st e)) r (u || negb (unique_slots st)) n'
-  end.
-Definition guard_flags (inputs : list (list event)) : list (list N) :=
-  let '(u, n) := guard_scan init (flat inputs) false false in [[if u then 1 else 0; if n then 1 else 0]]%N.
-"""
+def agrees_through_first_divergence(real, spec, model):
+    """real/spec/model: per-input [status, count, tags...].  Inputs before the first diverging one
+    must be predicted exactly; in the diverging input the model must predict the real tags up to
+    and including the first tag that differs from the specification (after a call has entered the
+    wrong body the VM runs that body under a foreign frame identity, which the model does not
+    describe).  Returns None when fine, else a description."""
+    for k, (r, s_) in enumerate(zip(real, spec)):
+        if k >= len(model):
+            return f"model has no prediction for input {k}"
+        m = model[k]
+        if r == s_:
+            if m != r:
+                return f"input {k}: model {m} != observed {r}"
+            continue
+        rt, st_, mt = r[2:], s_[2:], m[2:]
+        j = 0
+        while j < len(rt) and j < len(st_) and rt[j] == st_[j]:
+            j += 1
+        if m[0] == 5:
+            # the model stops at a call whose outcome it does not describe (OConfused: the 78 fast path fell
+            # through to the miss path after switching the index layout): everything printed before that
+            # call must match, and that call must not come after the first visible divergence
+            if len(mt) <= j and mt == rt[:len(mt)]:
+                return None
+            return f"input {k}: model stops (layout confusion) after tags {mt}, observed {rt[:j + 1]}"
+        upto = min(j + 1, len(rt))
+        if mt[:upto] != rt[:upto]:
+            return f"input {k}: model tags {mt[:upto]} != observed tags {rt[:upto]} (through the first wrong callee)"
+        if j >= len(rt) and m[0] != r[0] and len(rt) < 24:
+            return f"input {k}: model status {m[0]} != observed status {r[0]}"
+        return None
+    return None
 
 
 def run(ctx):
@@ -63,6 +69,8 @@ def run(ctx):
         "with the real one on all generated histories (including the ones where the real code violates the property)",
         "a garbage collection frees no object that is bound to a global (C03's property)",
     ]
+    ctx.cov["refuted_lemmas"] = ["call_runs_current (unconditional, every history): refuted by repl_slot_collision_refuted, "
+                                 "reload_zeroed_slots_refuted, native_rebind_stale_refuted"]
     proved = ctx.prove("C05", extracted=["CallCacheConsts"])
     if ctx.tier == "thorough" and proved:
         ctx.coqchk("C05")
@@ -71,15 +79,11 @@ def run(ctx):
         ctx.broken.append("coq: model files for the C05 tie do not build")
         ctx.log(out[-2000:])
         return
-    n_cases = 400 if ctx.tier == "quick" else 6000
+    n_cases = 400 if ctx.tier == "quick" else 5000
     profiles = ["dev"] if ctx.tier == "quick" else ["dev", "release"]
-    total = 0
+    total, ncalls = 0, 0
     distinct = set()
-    modes = {}
-    kinds = set()
-    known_counts = {}
-    ncalls = 0
-    # corpus first
+    modes, kinds, by_sig = {}, set(), {}
     corpus_cases(ctx)
     for prof in profiles:
         ok, paths, log = vlib.harness_build(["hx_callcache"], profile=prof)
@@ -95,9 +99,8 @@ def run(ctx):
                 cases.append({"mode": f[1], "seed": f[2], "query": f[3], "observed": f[4], "spec": f[5], "source": f[6],
                               "problems": f[7], "kinds": f[8], "ncalls": int(f[9])})
         if rc != 0 or len(cases) != n_cases:
-            # the harness died: the case after the last complete one is the culprit
-            ctx.violation("c05:harness-crash", "hx_callcache crashed (the VM took the process down) after %d cases" % len(cases),
-                          {"profile": prof, "completed_cases": len(cases), "next_case_index": len(cases),
+            ctx.violation("c05:harness-crash", "hx_callcache died (the VM took the process down) after %d cases" % len(cases),
+                          {"profile": prof, "completed_cases": len(cases),
                            "cmd": f"hx_callcache --seed {ctx.seed} --n {n_cases}", "output_tail": out[-1500:]})
             if not cases:
                 return
@@ -108,7 +111,6 @@ def run(ctx):
             ncalls += c["ncalls"]
             if c["ncalls"] > 0:
                 distinct.add(c["source"])
-        # harness self-consistency (site scan vs generated program)
         for c in cases:
             if c["problems"]:
                 if "RELOAD-SLOTS-KEPT" in c["problems"]:
@@ -118,75 +120,79 @@ def run(ctx):
                                       + c["problems"][:200])
                 ctx.cov.setdefault("harness_problems", []).append({"seed": c["seed"], "mode": c["mode"], "problems": c["problems"][:300]})
                 break
-        # model prediction for every history
-        pairs = [(c["query"], c["observed"] + "%N") for c in cases]
+        # (1) model prediction == observation, for every history
+        pairs = [(c["query"], c["observed"]) for c in cases]
         fails, err = vlib.coq_eval_cases("c05", IMPORTS, "session_obs", "obs_eqb", pairs, shard=40)
         if err:
             ctx.broken.append("correspondence C05: model evaluation failed")
             ctx.log(err[-3000:])
         failset = set(fails)
-        # direct oracle: real vs the property's reference interpreter
+        # (2) direct oracle: observation == the property's reference interpreter
         diverging = [i for i, c in enumerate(cases) if c["observed"] != c["spec"]]
-        gflags = {}
+        need_model = sorted(set(diverging) & failset)
+        model_obs = {}
+        if need_model:
+            mo, _e2 = vlib.coq_eval_terms("c05", IMPORTS, [f"session_obs ({cases[i]['query']})" for i in need_model])
+            for i, m in zip(need_model, mo):
+                model_obs[i] = parse_obs(m.split(":")[0]) if m else None
+        causes = {}
         if diverging:
-            gq = [(c["query"], "[[0;0]]%N") for c in (cases[i] for i in diverging)]
-            gf, gerr = vlib.coq_eval_cases("c05g", IMPORTS, "guard_flags", "obs_eqb", gq, shard=40, extra_defs=GUARD_DEFS)
-            if gerr:
-                ctx.broken.append("correspondence C05: guard evaluation failed")
-                ctx.log(gerr[-3000:])
-            # a second pass to tell the two guards apart
-            gq2 = [(c["query"], "[[1;0]]%N") for c in (cases[i] for i in diverging)]
-            gf2, _ = vlib.coq_eval_cases("c05g", IMPORTS, "guard_flags", "obs_eqb", gq2, shard=40, extra_defs=GUARD_DEFS)
-            gq3 = [(c["query"], "[[0;1]]%N") for c in (cases[i] for i in diverging)]
-            gf3, _ = vlib.coq_eval_cases("c05g", IMPORTS, "guard_flags", "obs_eqb", gq3, shard=40, extra_defs=GUARD_DEFS)
-            for k, i in enumerate(diverging):
-                if k not in set(gf):
-                    gflags[i] = (0, 0)
-                elif k not in set(gf2):
-                    gflags[i] = (1, 0)
-                elif k not in set(gf3):
-                    gflags[i] = (0, 1)
-                else:
-                    gflags[i] = (1, 1)
-        nviol = 0
+            dg, _e3 = vlib.coq_eval_terms("c05", IMPORTS, [f"diagnose ({cases[i]['query']})" for i in diverging])
+            for i, d in zip(diverging, dg):
+                mm = re.search(r"=\s*(\d+)", d or "")
+                causes[i] = int(mm.group(1)) if mm else -1
+        nrep = 0
         for i, c in enumerate(cases):
             rep = {"mode": c["mode"], "case_seed": c["seed"], "profile": prof, "source": c["source"],
                    "observed": c["observed"], "spec": c["spec"], "model_query": c["query"]}
-            if i in failset:
-                # the model does not predict the real behaviour: the tie is broken
-                nviol += 1
-                if nviol <= 3:
-                    mo, _ = vlib.coq_eval_terms("c05", IMPORTS, [f"session_obs ({c['query']})"])
-                    rep["model"] = mo[0]
-                    what = ("model and implementation differ" if c["observed"] == c["spec"] else
-                            "the call ran a callee that is neither what the name denotes nor what the modelled cache protocol predicts")
-                    ctx.violation("c05:model-mismatch:" + c["mode"], what, rep)
+            if c["observed"] == c["spec"]:
+                if i in failset:
+                    nrep += 1
+                    if nrep <= 3:
+                        mo, _ = vlib.coq_eval_terms("c05", IMPORTS, [f"session_obs ({c['query']})"])
+                        rep["model"] = mo[0]
+                        ctx.violation("c05:model-mismatch:" + c["mode"],
+                                      "the implementation follows the property here but the model predicts something else: "
+                                      "Model/CallCache.v no longer describes the code", rep)
                 continue
-            if c["observed"] != c["spec"]:
-                u, n = gflags.get(i, (0, 0))
-                if u and not n:
-                    sig = CLASSES[c["mode"]]
-                elif n and not u:
-                    sig = "c05:native-site-rebound"
-                elif u and n:
-                    sig = CLASSES[c["mode"]] + "+native-site-rebound"
-                else:
-                    sig = "c05:divergence-inside-guard"      # contradicts the theorem: report
-                r = ctx.violation(sig, "a call ran a function other than the one its callee denotes "
-                                  f"(observed {c['observed']}, specification {c['spec']})", rep)
-                known_counts[sig] = known_counts.get(sig, 0) + 1
+            # the property is violated on this history
+            real, spec = parse_obs(c["observed"]), parse_obs(c["spec"])
+            if i in failset:
+                m = model_obs.get(i)
+                why = "no model output" if m is None else agrees_through_first_divergence(real, spec, m)
+                if why:
+                    rep["model"] = m
+                    rep["why"] = why
+                    ctx.violation("c05:unexplained-wrong-callee:" + c["mode"],
+                                  "a call ran a callee that is neither what the name denotes nor what the modelled "
+                                  "cache protocol does: " + why, rep)
+                    continue
+            cause = causes.get(i, -1)
+            if cause == 1:
+                sig = SIG_BY_MODE[c["mode"]]          # a 78 site used a cache entry that is not its own
+            elif cause == 2:
+                sig = "c05:native-site-rebound"       # a 104 site did not follow the rebinding
+            else:
+                sig = f"c05:wrong-callee-cause-{cause}:" + c["mode"]
+            rep["cause"] = cause
+            ctx.violation(sig, "a call ran a function other than the one its callee denotes "
+                          f"(observed {c['observed']}, the property requires {c['spec']})", rep)
+            by_sig[sig] = by_sig.get(sig, 0) + 1
         ctx.add_samples([{"mode": c["mode"], "source": c["source"][:400], "observed": c["observed"], "spec": c["spec"]}
                          for c in cases[:2] + cases[5:6] + cases[8:9]])
     ctx.cov["evaluations"] = total
     ctx.cov["distinct_nontrivial"] = len(distinct)
     ctx.cov["calls_executed_top_level"] = ncalls
     ctx.cov["input_distribution"] = {"modes": modes, "object_kinds_seen": sorted(kinds),
-                                     "diverging_histories_by_class": known_counts}
+                                     "histories_violating_the_property_by_signature": by_sig}
     ctx.cov["rule"] = ("seeded random histories: 50% multi-input REPL sessions on one VM (2-7 inputs), 30% single programs, 20% programs "
                        "run after serialize/deserialize in a fresh VM; statements: fn definitions at three call-graph levels "
                        "(bodies with 0-2 call sites), redefinitions across inputs, let mut / assignments binding leaf functions, "
                        "closures, natives (abs, floor, type) and non-callables, rebinding of the builtin name `type`, calls from "
-                       "top-level and body sites; opt level 1 (REPL default) and 0; distinct = distinct sources with at least one call")
+                       "top-level and body sites; opt level 1 (REPL default) and 0 (every 7th case); every history is checked "
+                       "against the reference interpreter of the property (direct oracle) and against the Coq model "
+                       "(exactly when the property holds on it; through the first wrong callee when it does not); "
+                       "distinct = distinct sources with at least one top-level call")
 
 
 def corpus_cases(ctx):
